@@ -17,17 +17,21 @@ Definition dcall_eqb (a b : dcall) : bool :=
   match a, b with
   | DOpen, DOpen | DClose, DClose | DInWaiting, DInWaiting | DReset, DReset => true
   | DSetTmo x, DSetTmo y => optZ_eqb x y
-  | DRecvFrom x, DRecvFrom y | DRecv x, DRecv y | DRead x, DRead y => N.eqb x y
+  | DRecvFrom x, DRecvFrom y | DRead x, DRead y => N.eqb x y
   | DSend x, DSend y => bytes_eqb x y
   | _, _ => false
   end.
 
-(* which class was driven; KUdpCur = QMI_UdpTransport as it was before the read_until_timeout fix (used only
-   for histories on which the property oracle has flagged exactly that defect, i.e. a regression) *)
-Inductive kcode := KTcp | KUdp | KUdpCur | KSerial.
+(* which class was driven, with the tuning constants READ FROM THE LIVE CLASS by the harness on every
+   run: stream or datagram socket with MIN_PACKET_SIZE / MAX_PACKET_SIZE, or the serial port with
+   the poll interval it hands to serial.Serial (in ticks).  The policy is the pinned one; the check
+   below accepts every policy. *)
+Inductive kcode := KSock (strm : bool) (mn mx : N) | KSerial (tk : Z).
 Definition kind_of (k : kcode) : kind :=
-  match k with KTcp => Sock tcp_cfg | KUdp => Sock udp_cfg | KUdpCur => Sock udp_cfg_cur
-             | KSerial => Serial end.
+  match k with
+  | KSock st mn mx => Sock (mkcfg st mn mx true sock_pol)
+  | KSerial tk => Serial (mkscfg tk ser_pol)
+  end.
 
 Definition obs := (res * list dcall)%type.
 Definition obs_eqb (a b : obs) : bool := res_eqb (fst a) (fst b) && list_eqb dcall_eqb (snd a) (snd b).
@@ -35,12 +39,30 @@ Definition obs_eqb (a b : obs) : bool := res_eqb (fst a) (fst b) && list_eqb dca
 (* class, initial clock, device script, call sequence, what the implementation did per call *)
 Definition case := (kcode * Z * list ev * list op * list obs)%type.
 
-Definition model_out (c : case) : list obs :=
-  let '(k, t0, o, ops, _) := c in
-  map (fun x => (o_res x, o_calls x)) (snd (run (kind_of k) (init o t0) ops)).
+Definition obs_of (k : kind) (t0 : Z) (o : list ev) (ops : list op) : list obs :=
+  map (fun x => (o_res x, o_calls x)) (snd (run k (init o t0) ops)).
 
-(* the model must agree with the implementation and must never have run out of fuel *)
+(* the pinned behaviour *)
+Definition model_out (c : case) : list obs :=
+  let '(k, t0, o, ops, _) := c in obs_of (kind_of k) t0 o ops.
+
+Definition agrees (seen mo : list obs) : bool :=
+  list_eqb obs_eqb mo seen && forallb (fun x => negb (res_eqb (fst x) RFuel)) mo.
+
+(* membership in the allowed outcomes: what the implementation did is what SOME policy does (the
+   pinned policy is tried first), and the model never ran out of fuel *)
 Definition check_case (c : case) : bool :=
-  let '(_, _, _, _, seen) := c in
-  list_eqb obs_eqb (model_out c) seen &&
-  forallb (fun x => negb (res_eqb (fst x) RFuel)) (model_out c).
+  let '(k, t0, o, ops, seen) := c in
+  existsb (fun k' => agrees seen (obs_of k' t0 o ops)) (variants (kind_of k)).
+
+(* the pinned policy alone (used to report how many cases needed another policy) *)
+Definition check_case_pinned (c : case) : bool :=
+  let '(k, t0, o, ops, seen) := c in agrees seen (obs_of (kind_of k) t0 o ops).
+
+(* which policy explains the observation (for replays) *)
+Definition matching_policy (c : case) : option pol :=
+  let '(k, t0, o, ops, seen) := c in
+  match k with
+  | KSock _ _ _ | KSerial _ =>
+      List.find (fun p => agrees seen (obs_of (with_pol (kind_of k) p) t0 o ops)) all_pols
+  end.
